@@ -446,9 +446,28 @@ def check_target(R, drv, tier):
         R.q(vd, dt)
         if vd == "sat":
             w = model[s].as_string()
-            r = drv.compile(f"prql target:{w}\n" + PROBE, None) if re.fullmatch(r"[a-z.]+", w) else {}
-            R.violation({"engine": "mirsym", "kernel": "K-target", "kind": "target_name"}, f"K-target: name {w!r} is accepted as {('sql.any' if opt.disc == 0 else D[dv])}",
-                        {"name": w, "result": r.get("sql") or r.get("errors")})
+            got = "sql.any" if opt.disc == 0 else D[dv]
+            doc = DOCUMENTED_TARGETS.get(w)          # variant the documentation assigns to this name (None: not a dialect name)
+            # native replay: the name used as option string next to a header naming another dialect
+            other = "sql.mssql" if doc != "MsSql" else "sql.postgres"
+            prog = f"prql target:{other}\n" + PROBE
+            r1 = drv.compile(prog, w) if re.fullmatch(r"[A-Za-z0-9_.]+", w) else {"errors": "unprintable name"}
+            if doc is not None:
+                r2 = drv.compile(PROBE, "variant:" + doc)
+                bad = r1.get("sql") != r2.get("sql")
+                exp = r2.get("sql")
+            elif w == "sql.any":
+                r2 = drv.compile(PROBE, "variant:" + DOCUMENTED_TARGETS[other])
+                bad = r1.get("sql") != r2.get("sql")
+                exp = r2.get("sql")
+            else:
+                bad = bool(r1.get("ok"))
+                exp = "an error (unknown target)"
+            if bad:
+                R.violation({"engine": "mirsym", "kernel": "K-target", "kind": "target_name", "name": w}, f"K-target: option {w!r} is parsed as {got}; with header {other} the compiler emits {r1.get('sql') or r1.get('errors')!r}, expected {exp!r}",
+                            {"name": w, "parsed_as": got, "prql": prog, "sql": r1.get("sql"), "expected": exp})
+            else:
+                R.engine_error(f"K-target: model name {w!r} parsed as {got} does not reproduce natively")
         elif vd == "unknown":
             R.engine_error("K-target: unknown on accept query")
     for e in errp:
